@@ -58,6 +58,10 @@ FIXED = [
      'the combined StlDiscreteTimeSpecification reported the online interpreter counter (0) after evaluate()'),
     ('F03', ['C11', 'C12'], 'fix: bounded always/eventually padded their operand list in place',
      "offline bounded always/eventually appended +-inf to the caller's list for short traces; a second evaluate() on the same data differed; get_value(operand) was longer than the trace"),
+    ('F04b', ['C12'], 'fix: get_value() raised KeyError for nodes below a repeated sub-formula',
+     'online get_value(): KeyError for a name whose node lies below the second occurrence of a repeated sub-formula (regression window of F04, closed)'),
+    ('F21', ['C12'], 'fix: after pastify() get_value() of an input variable returned its delayed copy',
+     "after pastify() get_value('x') of an input variable returned the delayed once[d,d](x) (-inf, then old samples) instead of the supplied data"),
 ]
 
 OPEN = [
